@@ -131,6 +131,35 @@ fn lambert_w(x: Decimal) -> Option<Decimal> {
     Some(w)
 }
 
+/// Remainder with the sign of the dividend, computed exactly on the integer coefficients.
+/// (The `%` of rust_decimal returns a wrong value when the dividend has the smaller scale and
+/// does not fit 96 bits once rescaled, e.g. `4294967296 % 1.0000000000000000000000000001`.)
+fn decimal_rem(a: Decimal, b: Decimal) -> Option<Decimal> {
+    if b.is_zero() {
+        return None;
+    }
+    let (ma, mb) = (a.mantissa().unsigned_abs(), b.mantissa().unsigned_abs());
+    let (sa, sb) = (a.scale(), b.scale());
+    let (remainder, scale) = if sa <= sb {
+        // a = ma * 10^(sb - sa) / 10^sb: reduce modulo mb while scaling up, one digit at a time
+        let mut r = ma % mb;
+        for _ in 0..(sb - sa) {
+            r = (r * 10) % mb;
+        }
+        (r, sb)
+    } else {
+        // b = mb * 10^(sa - sb) / 10^sa: once the scaled divisor exceeds ma the remainder is ma
+        let mut d = Some(mb);
+        for _ in 0..(sa - sb) {
+            d = d.and_then(|d| d.checked_mul(10)).filter(|d| *d <= ma);
+        }
+        (d.map_or(ma, |d| ma % d), sa)
+    };
+    let mut result = Decimal::try_from_i128_with_scale(remainder as i128, scale).ok()?;
+    result.set_sign_negative(a.is_sign_negative() && remainder != 0);
+    Some(result)
+}
+
 pub fn eval(expr: Node) -> Result<Decimal, Box<dyn error::Error>> {
     #[cfg(feature = "verif_hooks")]
     crate::verif_hooks::tick(crate::verif_hooks::Point::EvalEntry);
@@ -149,9 +178,9 @@ pub fn eval(expr: Node) -> Result<Decimal, Box<dyn error::Error>> {
         Divide(expr1, expr2) => eval(*expr1)?
             .checked_div(eval(*expr2)?)
             .ok_or_else(|| "Division by zero or decimal overflow".into()),
-        Modulo(expr1, expr2) => eval(*expr1)?
-            .checked_rem(eval(*expr2)?)
-            .ok_or_else(|| "Division by zero or decimal overflow".into()),
+        Modulo(expr1, expr2) => {
+            decimal_rem(eval(*expr1)?, eval(*expr2)?).ok_or_else(|| "Division by zero".into())
+        }
         Negative(expr1) => Ok(-(eval(*expr1)?)),
         Abs(sub_expr) => Ok(eval(*sub_expr)?.abs()),
         Floor(sub_expr) => Ok(eval(*sub_expr)?.floor()),
